@@ -202,6 +202,44 @@ Proof. exact eu_join_characterises_le_refuted. Qed.
 Print Assumptions C13_eu_join_characterises_le_refuted.
 
 (* ------------------------------------------------------------------------------------- *)
+(* Truncated polynomials Polynomial<C> (MAX_COEFFS re-read from the source), for every
+   coefficient semiring C whose laws hold unconditionally.  [pwf] = well-formed value: array
+   of length MAX_COEFFS, len <= MAX_COEFFS, zero beyond len (what zero/one/+/* produce). *)
+
+Local Open Scope nat_scope.
+
+(* the nested loops compute the convolution truncated at MAX_COEFFS, with the coded len *)
+Theorem C13_poly_mul_is_truncated_convolution :
+  forall (C : Type) (o : sr_ops C), csr_laws everything o ->
+  forall (a b : poly C) (k : nat), pwf o a -> pwf o b -> k < MAXC ->
+  cf o (pmul o a b) k = sumn o (S k) (fun i => sr_mul o (cf o a i) (cf o b (k - i))) /\
+  plen (pmul o a b) =
+    (if Nat.eqb (plen a) 0 || Nat.eqb (plen b) 0 then 0 else Nat.min (plen a + plen b - 1) MAXC) /\
+  length (coeffs (pmul o a b)) = MAXC.
+Proof.
+  intros C o L a b k Wa Wb Hk.
+  split; [exact (pmul_cf o L a b k Wa Wb Hk) | split; [exact (pmul_plen o a b) | exact (pmul_length o a b)]].
+Qed.
+Print Assumptions C13_poly_mul_is_truncated_convolution.
+
+(* all commutative-semiring laws, including full associativity of the truncated product and
+   distributivity, with equality of the whole value (all MAX_COEFFS coefficients and len) *)
+Theorem C13_poly_semiring :
+  forall (C : Type) (o : sr_ops C), csr_laws everything o -> csr_laws (pwf o) (poly_ops o).
+Proof. intros C o L. exact (poly_laws o L). Qed.
+Print Assumptions C13_poly_semiring.
+
+Theorem C13_poly_shipped_coefficients :
+  csr_laws (pwf real_ops) (poly_ops real_ops) /\ csr_laws (pwf rational_ops) (poly_ops rational_ops) /\
+  csr_laws (pwf bool_ops) (poly_ops bool_ops) /\ csr_laws (pwf cx_ops) (poly_ops cx_ops) /\
+  csr_laws (pwf eu_ops) (poly_ops eu_ops).
+Proof.
+  split; [exact (poly_laws _ qc_laws)|]. split; [exact (poly_laws _ rational_laws)|].
+  split; [exact (poly_laws _ bool_laws)|]. split; [exact (poly_laws _ cx_laws) | exact (poly_laws _ eu_laws)].
+Qed.
+Print Assumptions C13_poly_shipped_coefficients.
+
+(* ------------------------------------------------------------------------------------- *)
 (* non-vacuity *)
 Example C13_nonvacuous :
   In prime_U128_LARGE_4 exported_primes /\
@@ -219,3 +257,15 @@ Qed.
 Example C13_nonvacuous_order :
   eu_le (Q2Qc 1, Q2Qc 2) (Q2Qc 3, Q2Qc 4) = true /\ real_le (Q2Qc 1) (Q2Qc 2) = true.
 Proof. split; vm_compute; reflexivity. Qed.
+
+(* truncation really happens and stays inside the well-formed values: x^31 * x^31 over the
+   Boolean semiring is the all-zero array with len 32 (not zero(), whose len is 0) *)
+Example C13_nonvacuous_poly :
+  let x := {| coeffs := Base.Util.set_nth (zeros bool_ops) 31 true; plen := 32 |} in
+  MAXC = 32 /\ pmul bool_ops x x = {| coeffs := zeros bool_ops; plen := 32 |} /\
+  pmul bool_ops x (pone bool_ops) = x /\
+  pwf bool_ops (pmul bool_ops (pone bool_ops) (padd bool_ops (pone bool_ops) (pone bool_ops))).
+Proof.
+  split; [reflexivity|]. split; [vm_compute; reflexivity|]. split; [vm_compute; reflexivity|].
+  apply pmul_wf; [exact bool_laws | apply pone_wf | apply padd_wf].
+Qed.
